@@ -133,7 +133,9 @@ def run(ctx):
         os.remove(wf)
         rows += [r for r in wrows if "s" in r]
     ctx.rule = ("strings: '' + all 256 one-byte strings + two-byte strings (quick: the 8*256 with first byte = seed%32 + 32j; "
-                "thorough: all 65536) + random strings of 1..16 tokens biased to shell metacharacters, reserved words, multi-byte "
+                "thorough: all 65536) + every string of length <= 3 over a 13-token critical alphabet (quotes, \\ ` $, hex digit, "
+                "control, newline, multi-byte, invalid byte) + the reserved-word list + random strings (3/8 from profiles aimed at the "
+                "\"..\", $'..' and '..' strategies) of 1..16 tokens biased to shell metacharacters, reserved words, multi-byte "
                 "runes (incl. U+FFFD, U+FFFE, non-characters, C1 controls, planes 1..16), invalid UTF-8 (lone lead/continuation "
                 "bytes, overlongs, surrogates, > U+10FFFF), control bytes, hex digits (mksh re-quoting), occasional NUL; each for "
                 "the five variants; non-trivial = distinct string that some variant has to quote or refuse. Unquote legs: quoted "
